@@ -224,7 +224,7 @@ impl vstd::std_specs::convert::TryFromSpecImpl<Bytes> for ZmqCommand {
 //@ loopbody 1
 //@|            broadcast use string_axioms::group_string;
 //@|            broadcast use vstd::std_specs::hash::group_hash_axioms;
-//@|            proof { if rfc_props_ok(b_view(&buf)) { lemma_props_list_unfold(b_view(&buf)); } }
+//@|            proof { if b_view(&buf).len() > 0 && rfc_props_ok(b_view(&buf)) { lemma_props_list_unfold(b_view(&buf)); } }
 //@|            let ghost cur0 = b_view(&buf);
 //@|            let ghost done0 = done;
 //@ loopend 1
